@@ -110,6 +110,7 @@ func init() {
 			cfg.ShortPct = 20
 			cfg.SubExpiredPct = 15
 			cfg.SubFlattenPct = 12
+			cfg.SameNamePct = 50
 			cfg.EmptyLastPct = 30
 			cfg.EmptyLastSub = true
 			if rng.Chance(40) {
@@ -119,7 +120,7 @@ func init() {
 			cfg.SubInspPct = 30
 			cfg.Differ = rng.Chance(15)
 			return cfg
-		}, "two- and three-level nestings: the evidence of one functionary per step may be a sublayout with its own link directory; defects (tampered/foreign/forged/garbage/corrupt links, one link too few, disagreeing links, rule violations) land at any level (incl. an expired or undated sublayout under a valid root, a sublayout whose last step reports no products, a sublayout whose directory is missing while its links lie in the parent's directory, a valid sublayout with its directory signed by a key the layout defines but does not list for that step, sublayouts with inspections of their own), also in a sublayout of a step that has more honest evidence than its threshold requires; parent rules strict or lenient; compared: verdict and summary. Class = (depth features, verdict).")
+		}, "two- and three-level nestings: the evidence of one functionary per step may be a sublayout with its own link directory; defects (tampered/foreign/forged/garbage/corrupt links, one link too few, disagreeing links, rule violations) land at any level (incl. an expired or undated sublayout under a valid root, a sublayout whose last step reports no products, a sublayout whose directory is missing while its links lie in the parent's directory, a valid sublayout with its directory signed by a key the layout defines but does not list for that step, sublayouts with inspections of their own, three-level nestings in which the delegating step of the middle level has the name and the functionary of the step that delegated to it), also in a sublayout of a step that has more honest evidence than its threshold requires; parent rules strict or lenient; compared: verdict and summary. Class = (depth features, verdict).")
 	}
 	props["C09"] = func(r *Runner, tier string, rng *Rng) {
 		kinds := []string{"noop", "create", "modify", "delete", "exit", "create-exit", "signal", "missing", "empty", "noop", "create", "noop"}
